@@ -5,6 +5,7 @@ package main
 import (
 	"fmt"
 	"go/types"
+	"os"
 	"strings"
 
 	"golang.org/x/tools/go/ssa"
@@ -157,7 +158,7 @@ func (c *Ctx) isCallPassingClosureThat(callee string, inner InstrPred) InstrPred
 }
 
 func pathStr(p []string) string {
-	if len(p) > 8 {
+	if len(p) > 8 && os.Getenv("GF_FULLPATH") == "" {
 		p = append(append([]string{}, p[:3]...), append([]string{"…"}, p[len(p)-4:]...)...)
 	}
 	return strings.Join(p, " → ")
